@@ -16,8 +16,11 @@ const WRONG_SHAPE: &[&[u8]] = &[
     b"[]", b"3", b"\"text\"", b"null", b"true", b"{\"a\":1}", b"{\"a\":{\"b\":\"c\"}}", b"{\"a\":null}", b"{\"a\":[\"b\"]}",
     b"<DIR>", b"{a:b}", b"{\"a\":\"b\",}", b"\xff\xfe{\"a\":\"b\"}", b"\xef\xbb\xbf{\"a\":\"b\"}", b"{\"a\":\"\xff\"}", b"[{\"a\":\"b\"}]", b"   ",
 ];
-const EMPTY_ENTRIES_SEL: &[&str] = &["{\"as\":\"\"}", "{\"\":\"x\"}", "{\"\":\"\"}", "{\"a\":\"\",\"as\":\"\",\"amar\":\"\"}", "{}"];
-const EMPTY_ENTRIES_AC: &[&str] = &["{\"as\":\"\"}", "{\"\":\"x\"}", "{\"\":\"\"}", "{\"a\":\"\",\"as\":\"\",\"amar\":\"\"}", "{}"];
+const EMPTY_ENTRIES_SEL: &[&str] = &["{\"as\":\"\"}", "{\"\":\"x\"}", "{\"\":\"\"}", "{\"a\":\"\",\"as\":\"\",\"amar\":\"\"}", "{}",
+                                     "{\"as\":\"xyz\",\"amar\":\"\u{1F600}\"}", "{\"a\":\"a\",\"tumi\":\"\u{00E9}\"}"];
+// (also: replacements that are not Avro-Latin text - written directly in Bengali, with a non-ASCII Latin letter)
+const EMPTY_ENTRIES_AC: &[&str] = &["{\"as\":\"\"}", "{\"\":\"x\"}", "{\"\":\"\"}", "{\"a\":\"\",\"as\":\"\",\"amar\":\"\"}", "{}",
+                                    "{\"as\":\"\u{0986}\u{09B6}\",\"amar\":\"t\u{00FC}m\"}", "{\"a\":\"\u{0986}\",\"tumi\":\"\u{00E9}\"}"];
 const VALID_SEL: &str = "{\"amar\":\"\u{0986}\u{09AE}\u{09B0}\",\"as\":\"\u{0986}\u{09B6}\"}";
 const VALID_AC: &str = "{\"as\":\"asa\",\"tumi\":\"tomra\"}";
 const WORDS: &[&str] = &["as", "ase", "amar", "a", "tumi", ":e"];
@@ -120,7 +123,7 @@ impl Replayer {
         match state {
             "torn" => torn_len.saturating_sub(1).max(1),
             "wrongshape" => WRONG_SHAPE.len(),
-            "emptyentries" => EMPTY_ENTRIES_SEL.len(),
+            "emptyentries" => EMPTY_ENTRIES_SEL.len().max(EMPTY_ENTRIES_AC.len()),
             _ => 1,
         }
     }
